@@ -79,7 +79,8 @@ def gen_query(rng, archs):
     aimed = rng.random() < 0.75
     for i in range(n):
         r = rng.random()
-        cfgs = [rng.randrange(NPRED)] if rng.random() < 0.2 else []
+        # zero, one, or several cfg attributes on one parameter (all of them must hold)
+        cfgs = [rng.randrange(NPRED) for _ in range(rng.choice([1, 1, 2, 2, 3]))] if rng.random() < 0.25 else []
         if r < 0.45:
             c = rng.choice(tcomps) if aimed and rng.random() < 0.9 else rng.randrange(10)
             ps.append(dict(cfgs=cfgs, mut=rng.random() < 0.5, ty=('comp', c)))
